@@ -1276,6 +1276,29 @@ impl Vm {
         )
     }
 
+    /// the unit-information table (looked up by unit name when a unit definition is compiled)
+    pub(crate) fn verif_c06_unit_information(&self) -> Vec<String> {
+        self.unit_information
+            .iter()
+            .map(|(n, m)| {
+                format!(
+                    "{n}:canonical={}/{}{} aliases={:?} metric={} binary={} name={:?} type={}",
+                    m.canonical_name.name,
+                    m.canonical_name.accepts_prefix.short,
+                    m.canonical_name.accepts_prefix.long,
+                    m.aliases
+                        .iter()
+                        .map(|(a, p)| format!("{a}/{}{}", p.short, p.long))
+                        .collect::<Vec<_>>(),
+                    m.metric_prefixes,
+                    m.binary_prefixes,
+                    m.name,
+                    m.type_
+                )
+            })
+            .collect()
+    }
+
     /// structural counters: `chunks main_len ip frames stack constants prefixes strings unit_infos ffi_args at_end`
     pub(crate) fn verif_c06_structure(&self) -> String {
         format!(
